@@ -398,12 +398,19 @@ impl TryFrom<super::safe::SchemaMut> for Schema {
 						name: record.name,
 					}),
 					SafeSchemaType::Enum(enum_) => SchemaNode::Enum(Enum {
-						per_name_lookup: enum_
-							.symbols
-							.iter()
-							.enumerate()
-							.map(|(i, v)| (v.clone(), i))
-							.collect(),
+						per_name_lookup: {
+							let mut per_name_lookup = HashMap::with_capacity(enum_.symbols.len());
+							for (i, symbol) in enum_.symbols.iter().enumerate() {
+								if per_name_lookup.insert(symbol.clone(), i).is_some() {
+									return Err(SchemaError::msg(format_args!(
+										"Enum {} declares symbol {:?} more than once",
+										enum_.name.fully_qualified_name(),
+										symbol
+									)));
+								}
+							}
+							per_name_lookup
+						},
 						symbols: enum_.symbols,
 						name: enum_.name,
 					}),
